@@ -16,7 +16,7 @@ import (
 func init() {
 	eng.Register(&eng.Check{
 		ID:          "C10",
-		Rule:        "E2 language explorer over bytes: (a) ALL byte strings of length <=4 (thorough <=5) over a 32-symbol alphabet with one representative per lexical class of the grammar (a n o t i s 0 1 - . \" ` / ~ _ ( ) { } [ ] , = ! space backslash NUL 0xFF 0xC3(truncated lead byte) and the 2-byte e-acute); (b) every sequence of <=2 tokens of the extended C15 token alphabet and <=3 of the base alphabet, all gap patterns; (c) every derivation of the C15 derivation set with one bad element (NUL, 0xFF, 0xC3, a lone quote of either kind, \"\\x\", \"\\400\", \"\\\", newline, [, (, {) injected at EVERY byte position; (d) extreme literals (numbers around and far beyond the int64 / uint64 / float64 ranges incl. the first that rounds to infinity, 5000-character literals of every kind, zero-padded and huge numeric selector parts, 2000-part paths, 500-fold not, 300-fold and/or) in every value and selector position of 14 + 8 small templates; oracle on the real code: CreateEvaluator, CreateFilter, grammar.Parse never panic; evaluator xor error (nil filter only for \"\"); Parse error is nil exactly when CreateEvaluator accepts, then its value is a non-nil Expression; every accepted evaluator evaluates 25 probe data (incl. collections of unusual shape under every name: maps keyed by a named string type / interface{} / int, typed pointer lists with nil, arrays, pointers to collections, typed nil collections) (strings under every name twice in a row, non-empty lists and maps under every name) (maps / lists / structs with every scalar kind incl. unsigned, float, bool, nil) (err => false, no panic), executes as a filter and its tree dumps without panic. Distinct by construction within each family; non-trivial = input accepted (the evaluator was exercised) or rejected with a nil result as required (both directions are meaningful; counted: accepted ones).",
+		Rule:        "E2 language explorer over bytes: (a) ALL byte strings of length <=4 (thorough <=5) over a 32-symbol alphabet with one representative per lexical class of the grammar (a n o t i s 0 1 - . \" ` / ~ _ ( ) { } [ ] , = ! space backslash NUL 0xFF 0xC3(truncated lead byte) and the 2-byte e-acute); (b) every sequence of <=2 tokens of the extended C15 token alphabet and <=3 of the base alphabet, all gap patterns; (c) every derivation of the C15 derivation set with one bad element (NUL, 0xFF, 0xC3, a lone quote of either kind, \"\\x\", \"\\400\", \"\\\", newline, [, (, {) injected at EVERY byte position; (d) extreme literals (numbers around and far beyond the int64 / uint64 / float64 ranges incl. the first that rounds to infinity, 5000-character literals of every kind, zero-padded and huge numeric selector parts, 2000-part paths, 500-fold not, 300-fold and/or; rejected and accepted inputs with 4..400 two-, three- and four-byte characters in front of the error position) in every value and selector position of 14 + 8 small templates; oracle on the real code: CreateEvaluator, CreateFilter, grammar.Parse never panic; evaluator xor error (nil filter only for \"\"); Parse error is nil exactly when CreateEvaluator accepts, then its value is a non-nil Expression; every accepted evaluator evaluates 25 probe data (incl. collections of unusual shape under every name: maps keyed by a named string type / interface{} / int, typed pointer lists with nil, arrays, pointers to collections, typed nil collections) (strings under every name twice in a row, non-empty lists and maps under every name) (maps / lists / structs with every scalar kind incl. unsigned, float, bool, nil) (err => false, no panic), executes as a filter and its tree dumps without panic. Distinct by construction within each family; non-trivial = input accepted (the evaluator was exercised) or rejected with a nil result as required (both directions are meaningful; counted: accepted ones).",
 		Assumptions: []string{"bounded: strings over class representatives, not all 256 byte values", "coverage-guided fuzzing (a different family) is deliberately not used"},
 		Run:         runC10,
 	})
@@ -304,6 +304,15 @@ func c10Extremes() []string {
 			for _, t := range []string{"%s == 1", "%s is empty", "%s is not empty", "1 in %s", "%s matches \"a\"", "any %s as x { x == 1 }", "all %s as k, v { k == v }", "a == %s"} {
 				out = append(out, strings.ReplaceAll(t, "%s", sel))
 			}
+		}
+	}
+	// REJECTED inputs whose error position lies behind many multi-byte characters (byte offsets are not rune indexes), and
+	// accepted ones of the same shape
+	for _, mb := range []string{"\u00e9", "\u6771", "\U0001d518"} {
+		for _, n := range []int{4, 6, 11, 12, 40, 400} {
+			body := rep(mb, n)
+			out = append(out, "a == \""+body, "a == `"+body, "\"/"+body+"/"+body+"\" == ", "\"/"+body+"\" == 1 and", "a[\""+body+"\"", "a[\""+body+"\"] == ", "a == \""+body+"\" )",
+				"a == \""+body+"\" and (", "a == \""+body+"\"", "a[\""+body+"\"] is empty", "\"/a/"+body+"\" == \""+body+"\"", "any a as x { x == \""+body+"\"", "a == \""+body+"\\q\"", "a == \""+body+"\xff\"")
 		}
 	}
 	out = append(out, "a"+rep(".a", 2000)+" == 1", "\""+rep("/a", 2000)+"\" == 1", "a"+rep("[\"a\"]", 1000)+" is empty", rep("not ", 500)+"a == 1", "a == 1"+rep(" and a == 1", 300), "a == 1"+rep(" or a != 1", 300))
